@@ -106,6 +106,8 @@ struct Inner<C> {
 
 struct PublishInfo {
     inflight: HashSet<num::NonZeroU16>,
+    /// unacknowledged `QoS` 1 and `QoS` 2 publishes, subset of `inflight`
+    publishes: HashSet<num::NonZeroU16>,
     /// `QoS` 2 publishes that are acknowledged with PUBREC and wait for PUBREL
     pubrel: HashSet<num::NonZeroU16>,
     aliases: HashMap<num::NonZeroU16, ByteString>,
@@ -114,6 +116,7 @@ struct PublishInfo {
 impl PublishInfo {
     fn remove(&mut self, id: num::NonZeroU16) {
         self.inflight.remove(&id);
+        self.publishes.remove(&id);
         self.pubrel.remove(&id);
     }
 }
@@ -140,6 +143,7 @@ where
                 info: RefCell::new(PublishInfo {
                     aliases: HashMap::default(),
                     inflight: HashSet::default(),
+                    publishes: HashSet::default(),
                     pubrel: HashSet::default(),
                 }),
             }),
@@ -215,12 +219,12 @@ where
                     if let Some(pid) = packet_id {
                         // check for receive maximum
                         let receive_max = state.receive_max();
-                        if receive_max != 0 && inner.inflight.len() >= receive_max as usize {
+                        if receive_max != 0 && inner.publishes.len() >= receive_max as usize {
                             log::trace!(
                                 "{}: Receive maximum exceeded: max: {} in-flight: {}",
                                 self.tag(),
                                 receive_max,
-                                inner.inflight.len()
+                                inner.publishes.len()
                             );
                             return Err(SpecViolation::Pub_3_3_4_7.into());
                         }
@@ -256,6 +260,7 @@ where
                             );
                             return Ok(None);
                         }
+                        inner.publishes.insert(pid);
                     }
 
                     // handle topic aliases
